@@ -2,7 +2,7 @@
 
 import ast
 
-from .model import AnalysisError, const_str, dotted, norm, walk_local
+from .model import AnalysisError, call_tail, const_str, dotted, norm, walk_local
 
 
 def returned_dict_keys(fi, nested=False):
@@ -14,7 +14,75 @@ def returned_dict_keys(fi, nested=False):
         s = const_str(k)
         if s is not None:
           keys.setdefault(s, x)
+        elif isinstance(k, ast.Name):
+          # `for kind, parser in <constant table>: ... return {kind: value}`
+          for v in loop_constants(fi, k.id):
+            keys.setdefault(v, x)
   return keys
+
+
+def loop_constants(fi, name):
+  """String constants a loop variable ranges over when the loop iterates a
+  literal table (directly, or through a local / module-level name)."""
+  return [const_str(c) for c in loop_cells(fi, name) if const_str(c) is not None]
+
+
+def loop_functions(fi, name):
+  """Names of functions a loop variable ranges over (dispatch tables)."""
+  return [c.id for c in loop_cells(fi, name) if isinstance(c, ast.Name)]
+
+
+def resolve_table(fi, e, depth=0):
+  """The literal list / tuple an iterable expression denotes: the literal
+  itself, or a local / module-level name bound to one."""
+  if isinstance(e, (ast.Tuple, ast.List)):
+    return e
+  if isinstance(e, ast.Name) and depth < 3:
+    for y in walk_local(fi.node):
+      if isinstance(y, ast.Assign) and any(isinstance(t, ast.Name) and t.id == e.id for t in y.targets):
+        return resolve_table(fi, y.value, depth + 1)
+    for y in fi.module.tree.body:
+      if isinstance(y, ast.Assign) and any(isinstance(t, ast.Name) and t.id == e.id for t in y.targets):
+        return resolve_table(fi, y.value, depth + 1)
+  return None
+
+
+def loop_cells(fi, name):
+  out = []
+
+  def table(e, depth=0):
+    if isinstance(e, (ast.Tuple, ast.List)):
+      return e
+    if isinstance(e, ast.Name) and depth < 3:
+      for y in walk_local(fi.node):
+        if isinstance(y, ast.Assign) and any(isinstance(t, ast.Name) and t.id == e.id for t in y.targets):
+          return table(y.value, depth + 1)
+      for y in fi.module.tree.body:
+        if isinstance(y, ast.Assign) and any(isinstance(t, ast.Name) and t.id == e.id for t in y.targets):
+          return table(y.value, depth + 1)
+    return None
+  for x in walk_local(fi.node):
+    if not isinstance(x, ast.For):
+      continue
+    tg = x.target
+    idx = None
+    if isinstance(tg, ast.Name) and tg.id == name:
+      idx = -1
+    elif isinstance(tg, (ast.Tuple, ast.List)):
+      for i, e in enumerate(tg.elts):
+        if isinstance(e, ast.Name) and e.id == name:
+          idx = i
+    if idx is None:
+      continue
+    t = table(x.iter)
+    if t is None:
+      continue
+    for row in t.elts:
+      cell = row if idx == -1 else (row.elts[idx] if isinstance(row, (ast.Tuple, ast.List))
+                                    and idx < len(row.elts) else None)
+      if cell is not None:
+        out.append(cell)
+  return out
 
 
 def tested_keys(fi, subject=None):
@@ -33,39 +101,199 @@ def tested_keys(fi, subject=None):
   return out
 
 
+def definition(name_node):
+  """The expression a Name stands for when it is a constant of the code: a
+  local assigned exactly once in its function (and not otherwise rebound), a
+  class-level attribute of the enclosing class, or a module-level name assigned
+  exactly once and never declared `global`.  None when it is not one."""
+  n = name_node.id
+  fi = getattr(name_node, '_fi', None)
+  q = fi
+  while q is not None:
+    vals, rebound = [], n in q.params
+    for x in walk_local(q.node):
+      if isinstance(x, ast.Assign):
+        for t in x.targets:
+          if isinstance(t, ast.Name) and t.id == n:
+            vals.append(x.value)
+          elif any(isinstance(e, ast.Name) and e.id == n for e in ast.walk(t)) and \
+              not isinstance(t, (ast.Subscript, ast.Attribute)):
+            rebound = True
+      elif isinstance(x, (ast.AugAssign, ast.AnnAssign)) and isinstance(x.target, ast.Name) \
+          and x.target.id == n:
+        rebound = True
+      elif isinstance(x, (ast.For, ast.comprehension)) and any(
+          isinstance(e, ast.Name) and e.id == n for e in ast.walk(x.target)):
+        rebound = True
+      elif isinstance(x, (ast.Global, ast.Nonlocal)) and n in x.names:
+        rebound = True
+    if rebound or len(vals) > 1:
+      return None
+    if vals:
+      return vals[0]
+    q = q.parent
+  mod = getattr(name_node, '_mod', None)
+  if mod is None:
+    return None
+  if fi is not None:
+    cls = fi.cls
+    p = fi
+    while cls is None and p is not None:
+      cls, p = p.cls, p.parent
+    if cls and cls in mod.classes:
+      for st in mod.classes[cls].node.body:
+        if isinstance(st, ast.Assign) and any(isinstance(t, ast.Name) and t.id == n for t in st.targets):
+          return st.value
+  return module_constant(mod, n)
+
+
+def module_constant(mod, n):
+  vals = []
+  for st in mod.tree.body:
+    if isinstance(st, ast.Assign):
+      for t in st.targets:
+        if isinstance(t, ast.Name) and t.id == n:
+          vals.append(st.value)
+    elif isinstance(st, (ast.AugAssign, ast.AnnAssign)) and isinstance(st.target, ast.Name) \
+        and st.target.id == n:
+      return None
+  if len(vals) != 1:
+    return None
+  cache = getattr(mod, '_globals_declared', None)
+  if cache is None:
+    cache = set()
+    for x in ast.walk(mod.tree):
+      if isinstance(x, ast.Global):
+        cache.update(x.names)
+    mod._globals_declared = cache
+  if n in cache:
+    return None           # module state, not a constant
+  return vals[0]
+
+
+def resolve(node, depth=6):
+  """`node` with named constants read as their definitions (one level of
+  naming at a time, up to `depth`)."""
+  while depth > 0:
+    depth -= 1
+    if isinstance(node, ast.Name):
+      d = definition(node)
+      if d is None:
+        return node
+      node = d
+      continue
+    if isinstance(node, ast.Attribute) and isinstance(node.value, ast.Name):
+      mod = getattr(node.value, '_mod', None)
+      fi = getattr(node.value, '_fi', None)
+      d = None
+      if node.value.id in ('self', 'cls') and fi is not None and mod is not None:
+        cls = fi.cls or (fi.parent.cls if fi.parent else None)
+        if cls and cls in mod.classes:
+          for st in mod.classes[cls].node.body:
+            if isinstance(st, ast.Assign) and any(
+                isinstance(t, ast.Name) and t.id == node.attr for t in st.targets):
+              d = st.value
+      elif mod is not None and node.value.id in mod.imports:
+        try:
+          other = mod.repo.by_name(mod.imports[node.value.id].split('.')[-1])
+          d = module_constant(other, node.attr)
+        except AnalysisError:
+          d = None
+      elif mod is not None and node.value.id in mod.classes:
+        for st in mod.classes[node.value.id].node.body:
+          if isinstance(st, ast.Assign) and any(
+              isinstance(t, ast.Name) and t.id == node.attr for t in st.targets):
+            d = st.value
+      if d is None:
+        return node
+      node = d
+      continue
+    return node
+  return node
+
+
+def dict_entries(node, what='dict'):
+  """[(constant key, value node)] of a dict-valued expression: a dict
+  literal (with ** expansion), dict(base, k=v), a named constant, `a | b`."""
+  node = resolve(node)
+  out = []
+  if isinstance(node, ast.Dict):
+    for k, v in zip(node.keys, node.values):
+      if k is None:
+        out += dict_entries(v, what)
+        continue
+      k = resolve(k)
+      if not isinstance(k, ast.Constant):
+        raise AnalysisError('%s has a non-constant key %s' % (what, norm(k, 40)))
+      out.append((k.value, v))
+    return out
+  if isinstance(node, ast.Call) and call_tail(node) == 'dict' and isinstance(node.func, ast.Name):
+    for a in node.args:
+      out += dict_entries(a, what)
+    for k in node.keywords:
+      if k.arg is None:
+        out += dict_entries(k.value, what)
+      else:
+        out.append((k.arg, k.value))
+    return out
+  if isinstance(node, ast.Call) and call_tail(node) in ('copy', 'deepcopy') and node.args:
+    return dict_entries(node.args[0], what)
+  if isinstance(node, ast.Call) and call_tail(node) == 'copy' and isinstance(node.func, ast.Attribute) \
+      and not node.args:
+    return dict_entries(node.func.value, what)
+  if isinstance(node, ast.BinOp) and isinstance(node.op, ast.BitOr):
+    return dict_entries(node.left, what) + dict_entries(node.right, what)
+  raise AnalysisError('%s is not a dict literal: %s' % (what, norm(node, 50)))
+
+
 def dict_literal(node, what='dict'):
-  """{const key: value node} of a Dict literal (keys must be constants)."""
-  if not isinstance(node, ast.Dict):
-    raise AnalysisError('%s is not a dict literal: %s' % (what, norm(node, 50)))
+  """{const key: value node} of a dict-valued constant expression (later
+  entries override earlier ones, as in Python)."""
   out = {}
-  for k, v in zip(node.keys, node.values):
-    if k is None:
-      raise AnalysisError('%s uses ** expansion' % what)
-    if not isinstance(k, ast.Constant):
-      raise AnalysisError('%s has a non-constant key %s' % (what, norm(k, 40)))
-    out[k.value] = v
+  for k, v in dict_entries(node, what):
+    out[k] = v
   return out
 
 
 def const_value(node):
-  """Python value of a constant expression: constants, implicit string
-  concatenation (already folded by the parser), tuples/lists of them,
-  parenthesised `+` of constants."""
+  """Python value of a constant expression: constants, tuples / lists / sets /
+  dicts of them, `+` of constants, named constants of the code (read as their
+  definitions), dict(...), set(...), tuple(...), list(...), frozenset(...)."""
+  node = resolve(node)
   if isinstance(node, ast.Constant):
     return node.value
   if isinstance(node, ast.BinOp) and isinstance(node.op, ast.Add):
     return const_value(node.left) + const_value(node.right)
+  if isinstance(node, ast.BinOp) and isinstance(node.op, ast.BitOr):
+    l, r = const_value(node.left), const_value(node.right)
+    if isinstance(l, (set, frozenset)) and isinstance(r, (set, frozenset)):
+      return set(l) | set(r)
+    if isinstance(l, dict) and isinstance(r, dict):
+      return dict(l, **r)
   if isinstance(node, (ast.Tuple, ast.List)):
     return [const_value(e) for e in node.elts]
   if isinstance(node, ast.Set):
     return set(const_value(e) for e in node.elts)
+  if isinstance(node, ast.Dict) or (isinstance(node, ast.Call) and call_tail(node) == 'dict'):
+    return {k: const_value(v) for k, v in dict_entries(node)}
+  if isinstance(node, ast.Call) and isinstance(node.func, ast.Name) and \
+      node.func.id in ('set', 'frozenset', 'tuple', 'list', 'sorted') and len(node.args) == 1 \
+      and not node.keywords:
+    v = const_value(node.args[0])
+    if node.func.id in ('set', 'frozenset'):
+      return set(v)
+    if node.func.id == 'sorted':
+      return sorted(v)
+    return list(v)
+  if isinstance(node, ast.JoinedStr) and all(isinstance(v, ast.Constant) for v in node.values):
+    return ''.join(v.value for v in node.values)
   raise AnalysisError('not a constant expression: %s' % norm(node, 60))
 
 
 def returned_dict_of_method(fi):
   """The dict literal returned by a method whose body is `return {..}`."""
   rets = [x for x in walk_local(fi.node) if isinstance(x, ast.Return)]
-  if len(rets) != 1 or not isinstance(rets[0].value, ast.Dict):
+  if len(rets) != 1 or rets[0].value is None:
     raise AnalysisError('%s does not return a single dict literal' % fi.fq)
   return dict_literal(rets[0].value, fi.fq)
 
@@ -117,4 +345,62 @@ def find_dicts_with(node, key, value=None):
       for k, v in zip(x.keys, x.values):
         if const_str(k) == key and (value is None or const_str(v) == value):
           out.append(x)
+  return out
+
+
+def expand_calls(fi, tails):
+  """Calls `x.<tail>(...)` of the function, with table-driven loops unrolled:
+  `for name, n, impl in TABLE: con.create_function(name, n, impl)` yields one
+  call per row of the literal table with the row's cells as arguments."""
+  out = []
+
+  def visit(stmts, loops):
+    for st in stmts:
+      if isinstance(st, (ast.For, ast.AsyncFor)):
+        visit(st.body, loops + [st])
+        visit(st.orelse, loops)
+        continue
+      for f in ('body', 'orelse', 'finalbody'):
+        sub = getattr(st, f, None)
+        if isinstance(sub, list) and sub and isinstance(sub[0], ast.stmt) and \
+            not isinstance(st, (ast.FunctionDef, ast.AsyncFunctionDef, ast.ClassDef)):
+          visit(sub, loops)
+      for h in getattr(st, 'handlers', []) or []:
+        visit(h.body, loops)
+      if isinstance(st, (ast.FunctionDef, ast.AsyncFunctionDef, ast.ClassDef)):
+        continue
+      header = [st] if not hasattr(st, 'body') else [
+          getattr(st, 'test', None), getattr(st, 'iter', None)] + [
+              i.context_expr for i in getattr(st, 'items', [])]
+      for hnode in header:
+        if hnode is None:
+          continue
+        for c in ast.walk(hnode):
+          if isinstance(c, ast.Call) and call_tail(c) in tails:
+            emit(c, loops)
+
+  def emit(c, loops):
+    names = {a.id for a in c.args if isinstance(a, ast.Name)}
+    for lp in reversed(loops):
+      tg = lp.target
+      tnames = [e.id for e in (tg.elts if isinstance(tg, (ast.Tuple, ast.List)) else [tg])
+                if isinstance(e, ast.Name)]
+      if not names & set(tnames):
+        continue
+      tbl = resolve_table(fi, lp.iter)
+      if tbl is None:
+        break
+      for row in tbl.elts:
+        cells = row.elts if isinstance(tg, (ast.Tuple, ast.List)) and \
+            isinstance(row, (ast.Tuple, ast.List)) else [row]
+        if len(cells) != len(tnames):
+          continue
+        bind = dict(zip(tnames, cells))
+        new = ast.Call(func=c.func, args=[bind.get(a.id, a) if isinstance(a, ast.Name) else a
+                                          for a in c.args], keywords=c.keywords)
+        ast.copy_location(new, row)
+        out.append(new)
+      return
+    out.append(c)
+  visit(fi.node.body, [])
   return out
